@@ -17,6 +17,11 @@ Go ↔ model (informer_map.go):
   otherwise entry stored + informer started, then wait for sync; on timeout (`Fail.sync`) an error
   is returned and the entry STAYS in the map with its informer running.
 * `InformerMap.Delete`: entry absent → nothing; else `close(StopCh)` + `delete(informers, gvk)`.
+* Contexts: `Get(ctx, …)` uses the caller's `ctx` ONLY to bound the wait for the first sync (`Fail.sync`);
+  `addInformerToMap(_ context.Context, …)` ignores it: the informer runs until `StopCh` is closed and
+  its LIST/WATCH requests are issued under `context.Background()` (`createListWatch(context.Background(), gvk)`).
+  The lifetime of call contexts and the context captured by each informer are modelled in the layer
+  `Pko.Model.InformerLive` on top of this model (`Pko.Props.C12Live`: an informer in the map is live).
 -/
 import Pko.Model.Cache
 namespace Pko.Model.InformerMap
